@@ -6,6 +6,8 @@
 //! trusted: R15 (deep slice): ChannelManager::handle_channel_resumption: the two function-local macros handle_cs! / handle_raa! and the match on commitment_order that invokes them, verbatim (the macro definitions are part of the slice); MessageSendEvent is a two-variant skeleton; channel_ready / tx_signatures / announcement_sigs / forwards handling around it is dropped and not claimed
 //! trusted: ChannelManager::handle_monitor_update_res is extracted whole (the logger type parameter instantiated, the startup flag an AtomicFlag stub); handle_new_monitor_update_locked_actions_handled_by_caller: the statements after the Watch call (removal of a completed update from the in-flight list, the defensive panic, the result pair) are sliced as a function of the in-flight list; handle_new_monitor_update_with_status / handle_post_close_monitor_update: the conditions under which the channel is resumed / the blocked actions released (slices)
 //! trusted: R10: `panic!(..)` statements the source reaches on purpose (unrecoverable persistence failure; a Watch that reports Completed while earlier updates are in progress) are calls of a stub that never returns
+//! trusted: R15 (deep slice): get_update_fulfill_htlc_and_commit: the statements that give a preimage update the id of the first blocked update and renumber the blocked ones, verbatim (the looked-up element expression, the id expressions and the loop body are captured); R7: `opt.map(|upd| M).unwrap_or(D)` is written as a match; R6: `for x in v.iter_mut() { B }` is an index loop that copies the element out, runs B on it and writes it back; the blocked queue is a Vec of {update: {update_id}} skeletons
+//! assume: the blocked updates carry consecutive ids (they were built one after the other, each with the next id)
 //! trusted: R9: `a |= b;` on bools with a side-effect-free right operand is written `a = a || b;` (Verus has no non-short-circuit `|` on bools); R8: `v.extend(w)` -> vec_extend (v becomes v followed by w); R3: log statements removed; R10: arguments of get_last_revoke_and_ack (a path callback and the logger) and of get_last_commitment_update_for_send (the logger) dropped
 //! assume: nothing here decides *when* these functions are called: that every state-advancing handler ends in monitor_updating_paused, that ChannelManager calls monitor_updating_restored only after every in-flight update completed, and the per-channel update-id order are not claimed
 use vstd::prelude::*;
@@ -218,6 +220,52 @@ impl FundedChannel {
     r == old(self).context.latest_monitor_update_id + 1, final(self).context.latest_monitor_update_id == r,
 //@end
 }
+// ---- a preimage update that must not wait jumps the queue of blocked updates without leaving a gap ---------------------
+pub struct ChannelMonitorUpdate { pub update_id: u64 }
+pub struct PendingChannelMonitorUpdate { pub update: ChannelMonitorUpdate }
+pub open spec fn consecutive_from(s: Seq<PendingChannelMonitorUpdate>, first: int) -> bool { forall|k: int| 0 <= k < s.len() ==> (#[trigger] s[k]).update.update_id == first + k }
+//@extract lightning/src/ln/channel.rs :: impl FundedChannel :: fn get_update_fulfill_htlc_and_commit
+//@slice R15
+    let blocked_upd = $b:seq; let new_mon_id = blocked_upd .map(|upd| $m:seq) .unwrap_or($d:seq); monitor_update.update_id = new_mon_id; for held_update in self.context.blocked_monitor_updates.iter_mut() { $body:straight }
+//@with
+    fn preimage_update_jumps_the_queue(blocked_monitor_updates: &mut Vec<PendingChannelMonitorUpdate>, monitor_update: &mut ChannelMonitorUpdate) {
+        let ghost old_b = blocked_monitor_updates@;
+        let blocked_upd = $b;
+        // R7: `opt.map(|upd| M).unwrap_or(D)` as a match
+        let new_mon_id = match blocked_upd { Some(upd) => $m, None => $d };
+        monitor_update.update_id = new_mon_id;
+        // R6: `for held_update in v.iter_mut() { B }` as an index loop over the elements in order
+        let mut __i: usize = 0;
+        while __i < blocked_monitor_updates.len()
+            invariant blocked_monitor_updates@.len() == old_b.len(), __i <= old_b.len(), consecutive_from(old_b, old_b[0].update.update_id as int) || old_b.len() == 0,
+                old_b.len() > 0 ==> old_b[0].update.update_id + old_b.len() < u64::MAX,
+                forall|k: int| 0 <= k < __i ==> (#[trigger] blocked_monitor_updates@[k]).update.update_id == old_b[k].update.update_id + 1,
+                forall|k: int| __i <= k < old_b.len() ==> (#[trigger] blocked_monitor_updates@[k]).update.update_id == old_b[k].update.update_id,
+            decreases old_b.len() - __i
+        {
+            let mut __e = PendingChannelMonitorUpdate { update: ChannelMonitorUpdate { update_id: blocked_monitor_updates[__i].update.update_id } };
+            { let held_update = &mut __e; $body }
+            blocked_monitor_updates.set(__i, __e);
+            __i = __i + 1;
+        }
+    }
+//@rw R10
+    self.context.blocked_monitor_updates
+//@with
+    blocked_monitor_updates
+//@requires
+    old(blocked_monitor_updates)@.len() > 0 ==> consecutive_from(old(blocked_monitor_updates)@, old(blocked_monitor_updates)@[0].update.update_id as int)
+        && old(blocked_monitor_updates)@[0].update.update_id + old(blocked_monitor_updates)@.len() < u64::MAX,
+//@ensures P C09 a-preimage-update-that-jumps-the-queue-takes-the-id-of-the-first-blocked-update-and-every-blocked-update-moves-up-by-one-so-the-sequence-stays-gap-free
+    old(blocked_monitor_updates)@.len() == 0 ==> final(monitor_update).update_id == old(monitor_update).update_id,
+    old(blocked_monitor_updates)@.len() > 0 ==> final(monitor_update).update_id == old(blocked_monitor_updates)@[0].update.update_id
+        && consecutive_from(final(blocked_monitor_updates)@, final(monitor_update).update_id as int + 1),
+    final(blocked_monitor_updates)@.len() == old(blocked_monitor_updates)@.len(),
+//@mutant preimage_update_takes_the_last_blocked_id
+    let blocked_upd = self.context.blocked_monitor_updates.get(0);
+//@with
+    let blocked_upd = self.context.blocked_monitor_updates.last();
+//@end
 // ---- ChannelManager::handle_channel_resumption: the order in which the two released messages go out ---------------
 #[derive(Clone, Copy)] pub struct PublicKey { pub id: u64 }
 #[derive(Clone, Copy)] pub struct ChannelId { pub id: u64 }
